@@ -3,10 +3,17 @@ import Driver.GTreeIO
 import GeosModel.Model.Norm.Normalize
 import GeosModel.Model.Norm.Orientation
 import GeosModel.Model.Norm.Classify
+import GeosModel.Model.Construct.Check
+import GeosModel.Base.F64
+import GeosModel.Base.Kernel
 /-! Driver for C20 (exe `drv_c20`).
   normalize   N g0 | g1 | …            -> nf0 | nf1 | … # idem=b canon=b eqx=b eqi=b      (model normal forms and the model's own oracle flags)
   normclass   N g0 | g1 | …            -> class=<hypothesis class of g0>
-Each `g` is `srid geom…` in the GTree token grammar. -/
+  construct   K kind | G g | H hull | E env | C centroid | S pos valid | B k sup… R r cx cy | M mrr | W mw
+                                       -> ok | violated:<conditions>     (exact certificate checkers on the GEOS outputs)
+  invariants  I kind | G g | R rev | RR revrev | N norm | CL clone | A a×4 | L l×4 | NP n×4 | NG n×4 | D d×4 | X f×6
+                                       -> ok | violated:<conditions>
+Each `g` is `srid geom…` in the GTree token grammar (or `err` where an operation threw). -/
 namespace Driver.C20
 open GeosModel GeosModel.Norm Driver.GTreeIO
 
@@ -60,10 +67,429 @@ def classLine (line : String) : String :=
     | _ => "parse-error"
   | _ => "bad-line"
 
+
+/-! ## exact geometry for the checkers -/
+open GeosModel.Kernel GeosModel.Construct
+
+/-- sections of a case line: tag ↦ tokens -/
+def sections (toks : List String) : List (String × List String) :=
+  (splitBar toks).filterMap fun ts => match ts with | t :: r => some (t, r) | [] => none
+
+def sec (ss : List (String × List String)) (tag : String) : Option (List String) := ss.lookup tag
+
+def parseGeomOpt (ts : List String) : Option G :=
+  match parseGeom ts with
+  | some (g, []) => some g.g
+  | _ => none
+
+mutual
+  partial def seqsOf : G → List CSeq
+    | .point s => [s]
+    | .lineString s => [s]
+    | .linearRing s => [s]
+    | .circularString s => [s]
+    | .polygon sh hs => sh :: hs
+    | .compoundCurve gs => gs.flatMap seqsOf
+    | .curvePolygon gs => gs.flatMap seqsOf
+    | .multiPoint gs => gs.flatMap seqsOf
+    | .multiLineString gs => gs.flatMap seqsOf
+    | .multiPolygon gs => gs.flatMap seqsOf
+    | .multiCurve gs => gs.flatMap seqsOf
+    | .multiSurface gs => gs.flatMap seqsOf
+    | .collection gs => gs.flatMap seqsOf
+end
+
+def coordsOf (g : G) : List Coord := (seqsOf g).flatMap (·.pts)
+def xyBits (cs : List Coord) : List UInt64 := cs.flatMap fun p => [p.x, p.y]
+
+/-- conversion of doubles to integers over the common power of two of `bits` -/
+structure Conv where
+  e0 : Int
+def Conv.int (cv : Conv) (u : UInt64) : Int := match F64.dyadic u with | some d => F64.scaleTo cv.e0 d | none => 0
+def Conv.pt (cv : Conv) (p : Coord) : Pt := ⟨cv.int p.x, cv.int p.y⟩
+def Conv.pts (cv : Conv) (l : List Coord) : List Pt := l.map cv.pt
+def mkConv (bits : List UInt64) : Option Conv := (F64.scaleAll bits).map fun (e0, _) => ⟨e0⟩
+
+def children : G → List G
+  | .compoundCurve gs => gs | .curvePolygon gs => gs | .multiPoint gs => gs | .multiLineString gs => gs
+  | .multiPolygon gs => gs | .multiCurve gs => gs | .multiSurface gs => gs | .collection gs => gs
+  | _ => []
+
+/-- polygons (as shell :: holes), lines, points of a geometry, flattened -/
+partial def polysOf : G → List (List CSeq)
+  | .polygon sh hs => if sh.pts.isEmpty then [] else [sh :: hs]
+  | g => (children g).flatMap polysOf
+partial def linesOf : G → List CSeq
+  | .lineString s => if s.pts.isEmpty then [] else [s]
+  | .linearRing s => if s.pts.isEmpty then [] else [s]
+  | g => (children g).flatMap linesOf
+partial def pointsOf : G → List Coord
+  | .point s => s.pts
+  | g => (children g).flatMap pointsOf
+
+def absI (n : Int) : Int := (n.natAbs : Int)
+
+def scaleOf (pts : List Pt) : Int := max 1 (maxL 0 (pts.flatMap fun p => [absI p.x, absI p.y]))
+
+/-- hull output as seen by the checker -/
+def hullOut (cv : Conv) : G → Option HullOut
+  | .point s => match s.pts with | [] => some .empty | [p] => some (.point (cv.pt p)) | _ => none
+  | .lineString s => match s.pts with | [] => some .empty | [a, b] => some (.segment (cv.pt a) (cv.pt b)) | _ => none
+  | .polygon sh [] => if sh.pts.isEmpty then some .empty else some (.ring (cv.pts sh.pts))
+  | .collection [] => some .empty
+  | .multiPoint [] => some .empty
+  | .multiLineString [] => some .empty
+  | .multiPolygon [] => some .empty
+  | _ => none
+
+def tolQ (scale : Int) : Q := ⟨scale, 1000000000⟩      -- 1e-9 · scale
+
+/-- `|a − b| ≤ rel·max(a,b) + abs²`-style closeness of two non-negative squared quantities:
+`a ≤ b(1+4e-9) + eps` and `b ≤ a(1+4e-9) + eps` with `eps = (1e-9·scale)²` -/
+def nearSq (a b : Q) (scale : Int) : Bool :=
+  let eps : Q := ⟨scale * scale, 1000000000 * 1000000000⟩
+  let f : Q := ⟨250000001, 250000000⟩
+  a.le ((b.mul f).add eps) && b.le ((a.mul f).add eps)
+
+/-- signed-ring list for the area centroid (`Centroid::addShell` / `addHole`) -/
+def centroidRings (cv : Conv) (polys : List (List CSeq)) : List (Int × List Pt) :=
+  polys.flatMap fun rs => match rs with
+    | [] => []
+    | sh :: hs =>
+      let shp := cv.pts sh.pts
+      ((if isCCWPts shp then (-1 : Int) else 1), shp) ::
+        (hs.filter (fun h => !h.pts.isEmpty)).map fun h => let hp := cv.pts h.pts; ((if isCCWPts hp then (1 : Int) else -1), hp)
+
+def segLen2 (e : Pt × Pt) : Int := sqDist e.1 e.2
+
+/-- the linework `Centroid` accumulates (polygon rings and lines), per sequence -/
+def centroidSeqs (cv : Conv) (g : G) : List (List Pt) :=
+  ((polysOf g).flatMap fun rs => (rs.filter (fun r => !r.pts.isEmpty)).map fun r => cv.pts r.pts) ++ (linesOf g).map fun s => cv.pts s.pts
+
+/-- exact (to 2^-80 relative in the line case) centroid following `Centroid`'s dimension fallback -/
+def centroidSpec (cv : Conv) (g : G) : Option (Q × Q) :=
+  match centroidArea (centroidRings cv (polysOf g)) with
+  | some c => some c
+  | none =>
+    let seqs := centroidSeqs cv g
+    let segs := seqs.flatMap edges
+    match centroidLine 80 segs with
+    | some c => some c
+    | none =>
+      -- zero-length linework counts as a point (its first coordinate)
+      let extra := seqs.filterMap fun s => s.head?
+      centroidPts (cv.pts (pointsOf g) ++ extra)
+
+def checkCentroid (cv : Conv) (g : G) (out : G) (scale : Int) : Bool :=
+  match centroidSpec cv g, out with
+  | none, .point s => s.pts.isEmpty
+  | some (cx, cy), .point s =>
+    match s.pts with
+    | [p] => Q.near (Q.ofInt (cv.int p.x)) cx (tolQ scale) && Q.near (Q.ofInt (cv.int p.y)) cy (tolQ scale)
+    | _ => false
+  | _, _ => false
+
+def ringsOfPoly (cv : Conv) (rs : List CSeq) : List (List Pt) := (rs.filter fun r => !r.pts.isEmpty).map fun r => cv.pts r.pts
+
+def polyArea2 (rs : List (List Pt)) : Int :=
+  match rs with
+  | [] => 0
+  | sh :: hs => absI (area2 sh) - hs.foldl (fun acc h => acc + absI (area2 h)) 0
+
+def checkPos (cv : Conv) (g : G) (out : G) (valid : Bool) : Bool :=
+  match out with
+  | .point s =>
+    match s.pts with
+    | [] =>
+      -- an empty answer is only wrong when there is a polygon with positive area to answer for
+      ((polysOf g).map (ringsOfPoly cv)).all fun rs => polyArea2 rs ≤ 0
+    | [p] =>
+      let q := cv.pt p
+      let polys := (polysOf g).map (ringsOfPoly cv)
+      let areal := polys.filter fun rs => polyArea2 rs > 0
+      if !areal.isEmpty then (if valid then areal.any (fun rs => posCheck rs q) else true)
+      else memB q (cv.pts (coordsOf g))
+    | _ => false
+  | _ => false
+
+def parseHexes : List String → Option (List UInt64) := fun l => l.mapM Driver.parseHex64
+
+structure Mbc where
+  sup : List Coord
+  radius : UInt64
+  cx : UInt64
+  cy : UInt64
+  hasCentre : Bool
+
+def parseMbc : List String → Option Mbc
+  | k :: r => do
+    let k ← k.toNat?
+    let supToks := r.take (2 * k)
+    let rest := r.drop (2 * k)
+    let sup ← parseHexes supToks
+    let rec pair : List UInt64 → List Coord
+      | x :: y :: r => ⟨x, y, nanBits, nanBits⟩ :: pair r
+      | _ => []
+    match rest with
+    | ["R", rad, "none"] => do let rad ← Driver.parseHex64 rad; some ⟨pair sup, rad, 0, 0, false⟩
+    | ["R", rad, cx, cy] => do
+      let rad ← Driver.parseHex64 rad; let cx ← Driver.parseHex64 cx; let cy ← Driver.parseHex64 cy
+      some ⟨pair sup, rad, cx, cy, true⟩
+    | _ => none
+  | _ => none
+
+/-- tolerant version of `mbcCheck` for full-precision inputs (near-cocircular points): support ⊆ inputs, every
+input within `r(1+2e-9) + 1e-9·scale` of the exact centre, non-obtuse up to `1e-9·scale²` -/
+def mbcApprox (pts sup : List Pt) (scale : Int) : Bool :=
+  sup.all (fun a => memB a pts) &&
+  match mbcCentre sup, sup with
+  | some (cx, cy), a :: _ =>
+    let d2 := fun (p : Pt) =>
+      let dx := Q.sub (Q.ofInt p.x) cx
+      let dy := Q.sub (Q.ofInt p.y) cy
+      Q.add (Q.mul dx dx) (Q.mul dy dy)
+    let r2 := d2 a
+    let eps : Q := ⟨scale * scale, 1000000000 * 1000000000⟩
+    let f : Q := ⟨250000001, 250000000⟩
+    let slack : Int := -(scale * scale)
+    pts.all (fun p => (d2 p).le ((r2.mul f).add eps)) &&
+    (match sup with
+     | [a, b, c] => decide (slack ≤ dot a b c * 1000000000) && decide (slack ≤ dot b a c * 1000000000) &&
+                    decide (slack ≤ dot c a b * 1000000000)
+     | _ => true)
+  | _, _ => false
+
+def checkMbc (cv : Conv) (exact : Bool) (pts : List Pt) (m : Mbc) (scale : Int) : List String :=
+  let sup := cv.pts m.sup
+  if !(mbcCheck pts sup || (!exact && mbcApprox pts sup scale)) then
+    [if sup.isEmpty && !pts.isEmpty && pts.all (fun p => decide (p = pts.headD ⟨0, 0⟩)) then "mbc-support(all-points-equal)" else "mbc-support"] else
+  match mbcCentre sup with
+  | none => if m.hasCentre then ["mbc-centre"] else []
+  | some (cx, cy) =>
+    if !m.hasCentre then ["mbc-centre"] else
+    let okc := Q.near (Q.ofInt (cv.int m.cx)) cx (tolQ scale) && Q.near (Q.ofInt (cv.int m.cy)) cy (tolQ scale)
+    -- radius² against the exact squared distance from the exact centre to the first support point
+    let r := Q.ofInt (cv.int m.radius)
+    let a := sup.headD ⟨0, 0⟩
+    let dx := Q.sub (Q.ofInt a.x) cx
+    let dy := Q.sub (Q.ofInt a.y) cy
+    let r2 := Q.add (Q.mul dx dx) (Q.mul dy dy)
+    let okr := nearSq (Q.mul r r) r2 scale
+    (if okc then [] else ["mbc-centre"]) ++ (if okr then [] else ["mbc-radius"])
+
+def checkMinWidth (cv : Conv) (pts : List Pt) (hull : Option HullOut) (out : G) (scale : Int) : List String :=
+  let len2 : Option Int := match out with
+    | .lineString s => match s.pts with
+      | [] => if pts.isEmpty then some 0 else none
+      | [a, b] => some (sqDist (cv.pt a) (cv.pt b))
+      | _ => none
+    | _ => none
+  match len2 with
+  | none => ["minwidth-shape"]
+  | some l2 =>
+    let exact : Q := match hull with
+      | some (.ring r) => (minWidth2 pts r).getD ⟨0, 1⟩
+      | _ => ⟨0, 1⟩
+    if nearSq (Q.ofInt l2) exact scale then [] else ["minwidth-value"]
+
+def checkMinRect (cv : Conv) (pts : List Pt) (hull : Option HullOut) (out : G) (scale : Int) : List String :=
+  let outPts := cv.pts (coordsOf out)
+  -- the rectangle corners are intersections of lines given by `a·y − b·x = c` with un-translated coordinates;
+  -- their rounding noise is far above 1e-9 of the coordinate magnitude, so 1e-6 is used here
+  let tol2 : Q := ⟨scale * scale, 1000000 * 1000000⟩
+  match hull with
+  | some (.ring r) =>
+    match out with
+    | .polygon sh [] =>
+      let rp := cv.pts sh.pts
+      if rp.length != 5 then ["minrect-shape"] else
+      let a2 := absI (area2 rp)
+      let exact := (minRectArea pts r).getD ⟨0, 1⟩
+      -- areas: |A − A*| ≤ 1e-9·(A* + scale²)
+      let okA := Q.near ⟨a2, 2⟩ exact (Q.mul ⟨1, 1000000⟩ (Q.add exact (Q.ofInt (scale * scale))))
+      -- containment: every input point within 1e-9·scale of the inner side of every rectangle edge
+      let sgn : Int := if area2 rp ≥ 0 then 1 else -1
+      let okC := (edges rp).all fun e =>
+        let l2 := sqDist e.1 e.2
+        pts.all fun p =>
+          let d := sgn * det e.1 e.2 p
+          decide (d ≥ 0) || Q.le ⟨d * d, 1⟩ (Q.mul tol2 (Q.ofInt l2))
+      -- a hull thinner than 1e-6 of the coordinate magnitude is reported as its own class
+      let thin := match minWidth2 pts r with
+        | some w => w.le ⟨scale * scale, 1000000 * 1000000⟩
+        | none => true
+      let sfx := if thin then "(thin-hull)" else ""
+      (if okA then [] else ["minrect-area" ++ sfx]) ++ (if okC then [] else ["minrect-contains" ++ sfx])
+    | _ => ["minrect-shape"]
+  | _ =>
+    -- degenerate input (hull is empty, a point or a segment): zero-area output holding every input point
+    let okZero := match out with
+      | .polygon sh [] => absI (area2 (cv.pts sh.pts)) == 0
+      | .lineString _ => true
+      | .point _ => true
+      | _ => false
+    let okC := match boxOf pts, boxOf outPts with
+      | none, none => true
+      | some b, some b' =>
+        let t := scale   -- 1e-9·scale, compared after multiplying by 1e9
+        decide ((b.minx - b'.minx) * 1000000000 ≥ -t) && decide ((b'.maxx - b.maxx) * 1000000000 ≥ -t) &&
+        decide ((b.miny - b'.miny) * 1000000000 ≥ -t) && decide ((b'.maxy - b.maxy) * 1000000000 ≥ -t)
+      | _, _ => false
+    (if okZero then [] else ["minrect-shape"]) ++ (if okC then [] else ["minrect-contains"])
+
+def verdict (bad : List String) : String :=
+  if bad.isEmpty then "ok" else "violated:" ++ Driver.joinWith "," bad.eraseDups
+
+def geomSec (ss : List (String × List String)) (tag : String) : Option (Option G) :=
+  match sec ss tag with
+  | none => none
+  | some ["err"] => some none
+  | some ts => (parseGeomOpt ts).map some
+
+def constructLine (line : String) : String :=
+  let ss := sections (Driver.tokens line)
+  match geomSec ss "G" with
+  | some (some g) =>
+    let outs := ["H", "E", "C", "M", "W"].filterMap fun t => match geomSec ss t with | some (some o) => some o | _ => none
+    let posSec := sec ss "S"
+    let (posG, valid) : Option G × Bool := match posSec with
+      | some ts => match ts.reverse with
+        | v :: r => (parseGeomOpt r.reverse, v == "1")
+        | [] => (none, false)
+      | none => (none, false)
+    let mbc := (sec ss "B").bind parseMbc
+    let mbcBits : List UInt64 := match mbc with
+      | some m => xyBits m.sup ++ [m.radius] ++ (if m.hasCentre then [m.cx, m.cy] else [])
+      | none => []
+    let allBits := xyBits (coordsOf g) ++ outs.flatMap (fun o => xyBits (coordsOf o)) ++
+      (match posG with | some o => xyBits (coordsOf o) | none => []) ++ mbcBits
+    match mkConv allBits with
+    | none => "non-finite"
+    | some cv =>
+      let pts := cv.pts (coordsOf g)
+      let scale := scaleOf pts
+      let hull : Option HullOut := match geomSec ss "H" with | some (some o) => hullOut cv o | _ => none
+      let bad : List String :=
+        (match geomSec ss "H" with
+         | some (some _) => (match hull with | some h => if hullCheck pts h then [] else ["hull"] | none => ["hull-shape"])
+         | some none => ["hull-error"] | none => []) ++
+        (match geomSec ss "E" with
+         | some (some o) => if envCheck pts (cv.pts (coordsOf o)) then [] else ["envelope"]
+         | some none => ["envelope-error"] | none => []) ++
+        (match geomSec ss "C" with
+         | some (some o) => if checkCentroid cv g o scale then [] else ["centroid"]
+         | some none => ["centroid-error"] | none => []) ++
+        (match posSec, posG with
+         | some ["err"], _ => ["pos-error"]
+         | some _, some o => if checkPos cv g o valid then [] else ["point-on-surface"]
+         | some _, none => ["pos-parse"]
+         | none, _ => []) ++
+        (match sec ss "B", mbc with
+         | some ["err"], _ => ["mbc-error"]
+         | some _, some m => checkMbc cv (sec ss "K" == some ["grid"]) pts m scale
+         | some _, none => ["mbc-parse"]
+         | none, _ => []) ++
+        (match geomSec ss "W" with
+         | some (some o) => checkMinWidth cv pts hull o scale
+         | some none => ["minwidth-error"] | none => []) ++
+        (match geomSec ss "M" with
+         | some (some o) => checkMinRect cv pts hull o scale
+         | some none => ["minrect-error"] | none => [])
+      verdict bad
+  | _ => "parse-error"
+
+
+/-! ## invariants -/
+
+/-- value of a double divided by `2^shift`, as a rational (0 for non-finite) -/
+def dyadicQ (u : UInt64) (shift : Int) : Q :=
+  match F64.dyadic u with
+  | none => ⟨0, 1⟩
+  | some (m, e) => if m == 0 then ⟨0, 1⟩ else
+    if e - shift ≥ 0 then ⟨m * (2 : Int) ^ (e - shift).toNat, 1⟩ else ⟨m, 2 ^ (shift - e).toNat⟩
+
+/-- twice the area `Geometry::getArea` approximates, in squared integer units -/
+def exactArea2 (cv : Conv) (g : G) : Int :=
+  ((polysOf g).map fun rs => polyArea2 (ringsOfPoly cv rs)).foldl (· + ·) 0
+
+/-- lower bound of the length `Geometry::getLength` approximates, times `2^80`, and the number of segments -/
+def exactLen (cv : Conv) (g : G) : Nat × Nat :=
+  let segs := (centroidSeqs cv g).flatMap edges
+  (segs.foldl (fun acc e => acc + sqrtScaled 80 (sqDist e.1 e.2).natAbs) 0, segs.length)
+
+def tok4 (ts : List String) : Option (String × String × String × String) :=
+  match ts with | [a, b, c, d] => some (a, b, c, d) | _ => none
+
+def eqTok (ts : List String) : Bool := match ts with | a :: r => r.all (fun x => x == a || x == "x") | [] => true
+
+def invariantsLine (line : String) : String :=
+  let ss := sections (Driver.tokens line)
+  let exact := sec ss "I" == some ["grid"]
+  match sec ss "G" with
+  | none => "parse-error"
+  | some gts =>
+    match parseGeom gts with
+    | some (gg, []) =>
+      let g := gg.g
+      let gdump := showGeom gg
+      let str := fun (tag : String) => match sec ss tag with | some ts => Driver.joinWith " " ts | none => "?"
+      let curved := unsupported g
+      let nrm := normalizeApi geosCfg g
+      let bad1 : List String :=
+        (if str "R" == showGeom ⟨gg.srid, reverse g⟩ then [] else ["reverse-model"]) ++
+        (if str "RR" == gdump then [] else ["reverse-reverse"]) ++
+        (if str "CL" == gdump then [] else ["clone"]) ++
+        (if str "N" == (match nrm with | some h => showGeom ⟨gg.srid, h⟩ | none => "err") then [] else ["normalize-model"])
+      -- counts and dimension
+      let np := (sec ss "NP").getD []
+      let ng := (sec ss "NG").getD []
+      let dm := (sec ss "D").getD []
+      let bad2 : List String :=
+        (if np.head? == some (toString (numPoints g)) then [] else ["numpoints-model"]) ++
+        (if eqTok np then [] else
+          [if hypClass geosCfg g == "repeated-min-vertex" then "numpoints-invariant(repeated-min-vertex)" else "numpoints-invariant"]) ++
+        (if ng.head? == some (toString (numGeoms g)) then [] else ["numgeoms-model"]) ++
+        (if eqTok ng then [] else ["numgeoms-invariant"]) ++
+        (if dm.head? == some (toString ((dimP1 g : Int) - 1)) then [] else ["dimension-model"]) ++
+        (if eqTok dm then [] else ["dimension-invariant"])
+      -- equality predicates
+      let xs := (sec ss "X").getD []
+      let bstr := fun (b : Bool) => if b then "1" else "0"
+      let revg := reverse g
+      let expectX : List String :=
+        [bstr (equalsExact geosCfg g g), bstr (equalsExact geosCfg g revg),
+         (match nrm with | some h => bstr (equalsExact geosCfg g h) | none => "x"),
+         bstr (equalsIdentical geosIdCfg g g), bstr (equalsIdentical geosIdCfg g revg),
+         (match nrm with | some h => bstr (equalsIdentical geosIdCfg g h) | none => "x")]
+      let bad3 : List String := if xs == expectX then [] else ["equals-model"]
+      -- area and length against the exact values
+      let bad4 : List String :=
+        if curved then [] else
+        match mkConv (xyBits (coordsOf g)) with
+        | none => ["non-finite"]
+        | some cv =>
+          let pts := cv.pts (coordsOf g)
+          let scale := scaleOf pts
+          let a2 := exactArea2 cv g
+          let (l80, nseg) := exactLen cv g
+          let areaExact : Q := ⟨a2, 2⟩
+          let lenExact : Q := ⟨l80, 2 ^ 80⟩
+          let tolA : Q := if exact then ⟨0, 1⟩ else ⟨scale * scale, 1000000000⟩
+          let tolL : Q := Q.add (Q.mul ⟨1, 1000000000⟩ (Q.add lenExact (Q.ofInt scale))) ⟨nseg + 1, 2 ^ 80⟩
+          let okA := ((sec ss "A").getD []).all fun t => t == "x" ||
+            (match Driver.parseHex64 t with | some u => Q.near (dyadicQ u (2 * cv.e0)) areaExact tolA | none => false)
+          let okL := ((sec ss "L").getD []).all fun t => t == "x" ||
+            (match Driver.parseHex64 t with | some u => Q.near (dyadicQ u cv.e0) lenExact tolL | none => false)
+          (if okA then [] else ["area"]) ++ (if okL then [] else ["length"])
+      verdict (bad1 ++ bad2 ++ bad3 ++ bad4)
+    | _ => "parse-error"
+
 def handle (stream : String) : String → String :=
   match stream with
   | "normalize" => normalizeLine
   | "normclass" => classLine
+  | "construct" => constructLine
+  | "invariants" => invariantsLine
   | _ => fun _ => "unknown-stream"
 
 end Driver.C20
